@@ -71,7 +71,10 @@ inductive LErr where
 structure FileInclude where
   filename : String
   includedBy : Option Nat
-  deriving Repr, BEq, DecidableEq
+  deriving Repr, DecidableEq
+
+/-- identity of an include is its file name: a lazefile is loaded once, whoever lists it -/
+instance : BEq FileInclude := ⟨fun a b => pathComponents a.filename == pathComponents b.filename⟩
 
 structure LDoc where
   doc : YDoc
@@ -107,7 +110,7 @@ def loadFiles (fs : Files) : Nat → Nat → List FileInclude → List LDoc → 
     match incs[pos]? with
     | none => .ok (docs, incs)
     | some inc =>
-      match fs.find? (·.1 == inc.filename) with
+      match fs.find? (fun fd => pathComponents fd.1 == pathComponents inc.filename) with
       | none => .error (.error "cannot read file")
       | some fd =>
         loadFiles fs fuel (pos + 1)
@@ -118,11 +121,11 @@ def loadFiles (fs : Files) : Nat → Nat → List FileInclude → List LDoc → 
 
 /-- `dependency_from_string` (an empty name makes the implementation index out of bounds) -/
 def depFromString (s : String) : Except LErr Dep :=
-  if s.isEmpty then .error (.panic "data.rs:dependency_from_string empty name")
+  if s.isEmpty then .error (.error "data.rs:empty dependency name")
   else if s.startsWith "?" then .ok (.soft (s.drop 1).toString) else .ok (.hard s)
 
 def depFromStringIf (s : String) (other : String) : Except LErr Dep :=
-  if s.isEmpty then .error (.panic "data.rs:dependency_from_string_if empty name")
+  if s.isEmpty then .error (.error "data.rs:empty dependency name")
   else if s.startsWith "?" then .ok (.ifSoft other (s.drop 1).toString) else .ok (.ifHard other s)
 
 def relpathOf (filename : String) : String :=
@@ -131,11 +134,11 @@ def relpathOf (filename : String) : String :=
 def earlyX {α} (x : Except XErr α) : Except LErr α :=
   match x with
   | .ok v => .ok v
-  | .error e => .error (.panic ("early expansion:" ++ xerrKind e))
+  | .error e => .error (.error ("early expansion:" ++ xerrKind e))
 
 /-- early expansion of one string of a task; errors are reported -/
 def expandTaskStr (flat : Flat) (s : String) : Except LErr String :=
-  match expandS flat .ignore s with
+  match expandKeepS flat .ignore s with
   | .ok v => .ok v
   | .error e => .error (.error ("task:" ++ xerrKind e))
 
@@ -231,7 +234,7 @@ def parentCounts (cs : List Context) : List Context → Except LErr (List (Name 
   | [] => .ok []
   | c :: rest =>
     match countParents cs (cs.length + 1) c.name with
-    | none => .error (.panic "context.rs:count_parents parent cycle (stack overflow)")
+    | none => .error (.error "context_bag.rs:parent cycle")
     | some k =>
       match parentCounts cs rest with
       | .error e => .error e
@@ -499,12 +502,12 @@ def inheritedDefaults (d : LDoc) (map : List (Nat × Module)) : Option Module :=
 
 /-- `.unwrap()` on the conversion of a defaults section: a reported error becomes a panic -/
 def remapDefaultsErr : LErr → LErr
-  | .error k => .panic ("data.rs:get_defaults unwrap:" ++ k)
+  | .error k => .error ("data.rs:get_defaults:" ++ k)
   | e => e
 
 def convertDefaults (d : LDoc) (sub : Option Module) (isBinary : Bool) (buildDir : String) (y : YModule) :
     Except LErr (Option Module) :=
-  if y.contextIsList then .error (.panic "data.rs:module defaults with context list") else
+  if y.contextIsList then .error (.error "data.rs:module defaults with context list") else
   match convertModule y (y.context.bind (·.head?)) isBinary d.filename sub buildDir with
   | .ok m => .ok (some m)
   | .error e => .error (remapDefaultsErr e)
